@@ -138,7 +138,14 @@ class Report:
                 # an algebraic identity that was extracted and then fails is a failure of the formulas
                 # themselves, whatever the shape of the function: never demoted
                 algebraic = str(o.detail).startswith(("residual ", "g_12 - e_x", "x-y form ==", "difference "))
-                d = None if algebraic else _restructured(o.site)
+                d = None
+                if not algebraic:
+                    # the function the instance is anchored in, then every function this check
+                    # recorded as analysed (an evaluation runs through several of them)
+                    for site in [o.site] + [x for x in self.analysed.get("functions", []) if isinstance(x, str)]:
+                        d = _restructured(site) if "(" in site or site == o.site else None
+                        if d is not None:
+                            break
                 if d is not None:
                     o.status = "undecided-restructured"
                     self.errors.append({"rule": o.rule, "site": o.site,
